@@ -708,8 +708,12 @@ where
                 let consts = mem::take(&mut self.consts);
                 // We compile the program in a separate thread so we don't block the runtime
                 let span = Span::current();
+                #[cfg(feature = "__verif")]
+                let gate_id = (policy.computation_id, policy.party);
                 thread::spawn(move || {
                     let _g = span.enter();
+                    #[cfg(feature = "__verif")]
+                    crate::verif::compile_gate(gate_id.0, gate_id.1);
                     debug!("compiling garble program");
                     let compiled = compile_with_options(
                         &program,
